@@ -4,6 +4,9 @@ import Poulpy.Lemmas.CnvSum
 import Poulpy.Lemmas.Ntt120Top
 import Poulpy.Lemmas.NttSum
 import Poulpy.Lemmas.NttAvxBridge
+import Poulpy.Lemmas.Fft64Instance
+import Poulpy.Lemmas.Fft64Vmp
+import Poulpy.Lemmas.F64Mono
 
 /-!
 # C07 — DFT-domain products equal exact negacyclic (bivariate) convolution
@@ -950,5 +953,356 @@ example : ((Avx.Ntt.cFromB (BitVec.ofNat 64 lazyWitness) (BitVec.ofNat 64 (Avx.Q
     primes30.q0 * 2 ^ 33 < lazyWitness := by decide +kernel
 
 end NTT120Hal
+
+end C07
+
+
+/-!
+# FFT64 — the floating-point half (appended slice)
+
+`Model/F64.lean` is an exact executable model of IEEE-754 binary64 (`+ − *`, unary `−`, `i64 → f64`, the
+`(x·2^-k).round() as i64` conversion) on 64-bit patterns; `Model/Fft64.lean` models the reference transform
+(`fft_ref`, `ifft_ref`, `reim_from/to_znx_i64`, `reim_mul/addmul`, the svp / vmp / idft path).  Both are tied bit for
+bit to `poulpy_cpu_ref` by the `fft64` gate.  The theorems below are about exactly those definitions:
+
+* (a) the rounding function is round-to-nearest (half an ulp, exact on representable values, monotone), `add/sub/mul` are the
+  correctly rounded exact results, `fl(x∘y) = (x∘y)(1+δ)` with `|δ| ≤ 2^-53`;
+* (b) a-priori error bounds of the forward and inverse networks **for every `n = 2^k`** by induction over the levels,
+  under the hypothesis that the table is within `τ` of the true roots of unity (`Fft64.TableAccurate`: *checked*
+  numerically by the gate for every dumped table, proved here for the `m = 2` table);
+* the exact networks evaluate at the roots of `X^m − i`, invert each other up to `2^k`, and turn the negacyclic product
+  into the slot-wise product;
+* hence **`fft64_pipeline_exact`**: inside the explicit domain `Fft64.SvpDomain` the value the FFT64 svp pipeline
+  returns is exactly `Hal.negMul`; `fft64_domain_numeric` gives the domain in numbers for `n ≤ 2^16`.
+
+PARTIAL with respect to the slice brief: the a-priori domain is a worst-case (sup-norm) bound, `n²·(9/16)·|a|·|b|·(20k+6)·2^-53 < 1/2`,
+i.e. `n·|a|·|b| ≤ 2^35` at `n = 1024` and `2^28` at `n = 65536`, where the measured boundary on the tried worst-case inputs is
+`2^49`; the vmp domain (`VmpDomain`) is explicit but has no closed-form table; the AVX2/FMA variants and the convolution path
+have no theorem (tied only).
+-/
+
+namespace C07
+open F64 Fft64 Complex Hal
+
+/-! ### (a) the binary64 model -/
+
+/-- `round` is round-to-nearest: finite result, error at most `max (2^-53·|x|) 2^-1075`, below `2^1023` -/
+theorem f64_round_nearest (d : Dy) (hx : |d.val| < (2:ℝ) ^ (1023:Int)) :
+    Fin64 (round d) ∧ |val (round d) - d.val| ≤ max (u * |d.val|) η :=
+  ⟨(val_round d hx).1, (val_round d hx).2.1⟩
+
+/-- half a unit in the last place: `|round x − x| ≤ 2^(q−1)`, `q` the exponent of the result's last bit -/
+theorem f64_round_half_ulp (d : Dy) (hm : d.m ≠ 0) (hx : |d.val| < (2:ℝ) ^ (1023:Int)) :
+    |val (round d) - d.val| ≤ (2:ℝ) ^ (quantum d.m d.e - 1) :=
+  (val_round d hx).2.2.2 hm
+
+/-- `round` is the identity on representable values (at most 53 significant bits, exponent `≥ -1074`) -/
+theorem f64_round_exact_on_representable (d : Dy) (hm : d.m < 2 ^ 53) (he : -1074 ≤ d.e)
+    (hx : |d.val| < (2:ℝ) ^ (1023:Int)) : val (round d) = d.val := by
+  by_cases h0 : d.m = 0
+  · have hd : d = ⟨d.neg, 0, d.e⟩ := by cases d; simp_all
+    have h := round_zero d.neg d.e
+    rw [← hd] at h
+    rw [val_of_decode h, Dy.val_zero]; unfold Dy.val; rw [h0]; simp
+  · apply (val_round d hx).2.2.1 h0
+    have : Nat.log2 d.m < 53 := (Nat.log2_lt h0).2 hm
+    unfold quantum; push_cast; omega
+
+/-- `round` is monotone: `x ≤ y → round x ≤ round y` (ties go to even on both sides of a shared midpoint, binade
+boundaries are fixed points) -/
+theorem f64_round_monotone (x y : Dy) (hx : |x.val| < (2:ℝ) ^ (1023:Int)) (hy : |y.val| < (2:ℝ) ^ (1023:Int))
+    (h : x.val ≤ y.val) : val (round x) ≤ val (round y) := round_mono x y hx hy h
+
+/-- every finite pattern is a fixed point of decode → value: its value is representable -/
+theorem f64_decode_representable {b : Nat} {d : Dy} (h : decode b = some d) : d.m < 2 ^ 53 ∧ -1074 ≤ d.e ∧ d.e ≤ 971 :=
+  decode_bounds h
+
+/-- `a + b` is the correctly rounded exact sum; no underflow error -/
+theorem f64_add_correctly_rounded (a b : Nat) (ha : Fin64 a) (hb : Fin64 b) (hx : |val a + val b| < (2:ℝ) ^ (1023:Int)) :
+    Fin64 (add a b) ∧ |val (add a b) - (val a + val b)| ≤ u * |val a + val b| := add_spec a b ha hb hx
+
+theorem f64_sub_correctly_rounded (a b : Nat) (ha : Fin64 a) (hb : Fin64 b) (hx : |val a - val b| < (2:ℝ) ^ (1023:Int)) :
+    Fin64 (sub a b) ∧ |val (sub a b) - (val a - val b)| ≤ u * |val a - val b| := sub_spec a b ha hb hx
+
+theorem f64_mul_correctly_rounded (a b : Nat) (ha : Fin64 a) (hb : Fin64 b) (hx : |val a * val b| < (2:ℝ) ^ (1023:Int)) :
+    Fin64 (mul a b) ∧ |val (mul a b) - val a * val b| ≤ max (u * |val a * val b|) η := mul_spec a b ha hb hx
+
+theorem f64_neg_exact (a : Nat) (ha : Fin64 a) : Fin64 (neg a) ∧ val (neg a) = -val a := neg_spec a ha
+
+/-- standard model of floating-point arithmetic: `fl(x·y) = x·y·(1+δ)`, `|δ| ≤ 2^-53` (normal range) -/
+theorem f64_mul_standard_model (a b : Nat) (ha : Fin64 a) (hb : Fin64 b) (hlo : (2:ℝ) ^ (-1022:Int) ≤ |val a * val b|)
+    (hhi : |val a * val b| < (2:ℝ) ^ (1023:Int)) :
+    ∃ δ : ℝ, |δ| ≤ u ∧ val (mul a b) = val a * val b * (1 + δ) := (mul_rel a b ha hb hlo hhi).2
+
+/-- `fl(x+y) = (x+y)(1+δ)`, `|δ| ≤ 2^-53`, with no lower range restriction -/
+theorem f64_add_standard_model (a b : Nat) (ha : Fin64 a) (hb : Fin64 b) (hhi : |val a + val b| < (2:ℝ) ^ (1023:Int)) :
+    ∃ δ : ℝ, |δ| ≤ u ∧ val (add a b) = (val a + val b) * (1 + δ) := (add_rel a b ha hb hhi).2
+
+/-- `x as f64` is exact below `2^53` and correctly rounded beyond -/
+theorem f64_of_int (x : Int) (hx : |(x:ℝ)| < (2:ℝ) ^ (1023:Int)) :
+    Fin64 (ofInt x) ∧ |val (ofInt x) - (x:ℝ)| ≤ u * |(x:ℝ)| ∧ (x.natAbs < 2 ^ 53 → val (ofInt x) = (x:ℝ)) := ofInt_spec x hx
+
+/-- `reim_to_znx_i64`: a value whose scaled image is within `1/2` (after the rounding of the scaling) of an integer is
+converted to that integer -/
+theorem f64_to_i64 (k : Nat) (hk : k ≤ 1022) (a : Nat) (ha : Fin64 a) (c : Int) (hc : |c| ≤ 2 ^ 62)
+    (hx : |val a * (2:ℝ) ^ (-(k:Int))| < (2:ℝ) ^ (1023:Int))
+    (h : |val a * (2:ℝ) ^ (-(k:Int)) - (c:ℝ)| + max (u * |val a * (2:ℝ) ^ (-(k:Int))|) η < 1 / 2) :
+    toI64 k a = c := toI64_spec k hk a ha c hc hx h
+
+/-! non-vacuity of (a): concrete patterns (1.0 + 2^-53 ties to even; (1+2^-52)² rounds down; 2^53+1 ties to even) -/
+example : add 0x3FF0000000000000 0x3CA0000000000000 = 0x3FF0000000000000 := by decide +kernel
+example : mul 0x3FF0000000000001 0x3FF0000000000001 = 0x3FF0000000000002 := by decide +kernel
+example : ofInt 9007199254740993 = 0x4340000000000000 ∧ ofInt (-3) = 0xC008000000000000 := by decide +kernel
+example : toI64 2 0x4024000000000000 = 3 ∧ toI64 2 0xC024000000000000 = -3 ∧ toI64 0 0x43E0000000000000 = 2 ^ 63 - 1 := by
+  decide +kernel
+/-- monotonicity on a concrete pair: `2^53 + 1 ≤ 2^53 + 3` round to `2^53` resp. `2^53 + 4` -/
+example : val (round ⟨false, 2 ^ 53 + 1, 0⟩) ≤ val (round ⟨false, 2 ^ 53 + 3, 0⟩) := by
+  have b : (2:ℝ) ^ (54:Nat) < (2:ℝ) ^ (1023:Int) := by
+    rw [← zpow_natCast]; exact zpow_lt_zpow_right₀ (by norm_num) (by norm_num)
+  apply f64_round_monotone
+  · rw [Dy.val_abs]; refine lt_trans ?_ b; norm_num
+  · rw [Dy.val_abs]; refine lt_trans ?_ b; norm_num
+  · unfold Dy.val; norm_num
+example : F64.round ⟨false, 2 ^ 53 + 1, 0⟩ = 0x4340000000000000 ∧ F64.round ⟨false, 2 ^ 53 + 3, 0⟩ = 0x4340000000000002 := by decide +kernel
+example : Fin64 0x3FF0000000000000 ∧ val 0x3FF0000000000000 = 1 := by
+  have h : decode 0x3FF0000000000000 = some ⟨false, 2 ^ 52, -52⟩ := by decide +kernel
+  refine ⟨⟨_, h⟩, ?_⟩
+  rw [val_of_decode h]; unfold Dy.val; simp only [Bool.false_eq_true, if_false, one_mul]
+  rw [zpow_neg]; norm_num
+
+/-! ### (b) per-butterfly lemmas and the inductive error bounds -/
+
+/-- one `cplx_twiddle` / `cplx_i_twiddle`: both outputs within `γf τ · M` of the exact butterfly -/
+theorem fft64_butterfly_error (t : Tw) (a b : C64) (ω : ℂ) (τ M : ℝ) (ht : TwFin t) (ha : CFin a) (hb : CFin b)
+    (hω : ‖ω‖ = 1) (hτ : ‖twC t - ω‖ ≤ τ) (hτ1 : τ ≤ 1) (hMa : ‖cval a‖ ≤ M) (hMb : ‖cval b‖ ≤ M)
+    (hM1 : 1 ≤ M) (hM2 : M ≤ (2:ℝ) ^ (999:Int)) :
+    CFin (bflyFwd t a b).1 ∧ CFin (bflyFwd t a b).2 ∧
+    ‖cval (bflyFwd t a b).1 - (cval a + ω * cval b)‖ ≤ γf τ * M ∧
+    ‖cval (bflyFwd t a b).2 - (cval a - ω * cval b)‖ ≤ γf τ * M :=
+  bflyFwd_err t a b ω τ M ht ha hb hω hτ hτ1 hMa hMb hM1 hM2
+
+/-- one `inv_twiddle` / `inv_itwiddle` -/
+theorem fft64_inv_butterfly_error (t : Tw) (a b : C64) (ω : ℂ) (τ M : ℝ) (ht : TwFin t) (ha : CFin a) (hb : CFin b)
+    (hω : ‖ω‖ = 1) (hτ : ‖twCi t - ω‖ ≤ τ) (hτ1 : τ ≤ 1) (hMa : ‖cval a‖ ≤ M) (hMb : ‖cval b‖ ≤ M)
+    (hM1 : 1 ≤ M) (hM2 : M ≤ (2:ℝ) ^ (997:Int)) :
+    CFin (bflyInv t a b).1 ∧ CFin (bflyInv t a b).2 ∧
+    ‖cval (bflyInv t a b).1 - (cval a + cval b)‖ ≤ γi τ * M ∧
+    ‖cval (bflyInv t a b).2 - (cval a - cval b) * ω‖ ≤ γi τ * M :=
+  bflyInv_err t a b ω τ M ht ha hb hω hτ hτ1 hMa hMb hM1 hM2
+
+/-- the per-butterfly constants in numbers for `τ = 2^-51`: `γf = 10.5·2^-53`, `γi = 19·2^-53` (up to `2^-100`) -/
+theorem fft64_gamma_numeric : γf τ51 ≤ 10.51 * u ∧ γi τ51 ≤ 19.01 * u := by
+  constructor
+  · unfold γf κ u τ51; norm_num
+  · unfold γi κ u τ51; norm_num
+
+/-- **forward transform, every `k`**: inputs within `E` of exact vectors bounded by `A` give outputs within
+`errB (γf τ) k A E = 2^k·((1+γf/2)^k·(A+E) − A)` of the exact network, whose values are bounded by `2^k·A` -/
+theorem fft64_forward_error_bound (τ : ℝ) (hτ0 : 0 ≤ τ) (hτ1 : τ ≤ 1) (tw : Nat → Nat → Tw)
+    (k lvl blk : Nat) (j A E : ℝ) (zc : List C64) (z : List ℂ) (hA : 1 ≤ A) (hE : 0 ≤ E) (hlen : zc.length = 2 ^ k)
+    (hc : Close E A zc z) (hacc : AccF τ tw k lvl blk j)
+    (hbig : 2 ^ k * (1 + γf τ / 2) ^ k * (A + E) ≤ (2:ℝ) ^ (999:Int)) :
+    Close (errB (γf τ) k A E) (2 ^ k * A) (fwd tw k lvl blk zc) (fwdE k j z) :=
+  fwd_err τ hτ0 hτ1 tw k lvl blk j A E zc z hA hE hlen hc hacc hbig
+
+/-- **inverse transform, every `k`** -/
+theorem fft64_inverse_error_bound (τ : ℝ) (hτ0 : 0 ≤ τ) (hτ1 : τ ≤ 1) (tw : Nat → Nat → Tw)
+    (k lvl blk : Nat) (j A E : ℝ) (zc : List C64) (z : List ℂ) (hA : 1 ≤ A) (hE : 0 ≤ E) (hlen : zc.length = 2 ^ k)
+    (hc : Close E A zc z) (hacc : AccI τ tw k lvl blk j)
+    (hbig : 2 ^ k * (1 + γi τ / 2) ^ k * (A + E) ≤ (2:ℝ) ^ (997:Int)) :
+    Close (errB (γi τ) k A E) (2 ^ k * A) (inv tw k lvl blk zc) (invE k j z) :=
+  inv_err τ hτ0 hτ1 tw k lvl blk j A E zc z hA hE hlen hc hacc hbig
+
+/-- the forward bound in the brief's form: `‖fft_computed(x) − DFT_exact(x)‖∞ ≤ ((1+γf/2)^k − 1)·m·M'` for exact inputs
+bounded by `M'` (`m = 2^k` points; `(1+γf/2)^k − 1 ≈ k·γf/2`) -/
+theorem fft64_forward_error_closed_form (γ : ℝ) (k : Nat) (A : ℝ) :
+    errB γ k A 0 = ((1 + γ / 2) ^ k - 1) * (2 ^ k * A) := by unfold errB; ring
+
+/-! ### the exact networks -/
+
+/-- the exact forward network evaluates the packed polynomial at the `2^k` roots of `X^(2^k) = e^{2πi·j}` -/
+theorem fft64_exact_network_is_evaluation (k : Nat) (j : ℝ) (z : List ℂ) (hz : z.length = 2 ^ k) :
+    fwdE k j z = (rootsL k j).map (fun r => NttMath.ev z r) ∧ ∀ r ∈ rootsL k j, r ^ (2 ^ k) = cis j :=
+  ⟨fwdE_eval k j z hz, rootsL_pow k j⟩
+
+theorem fft64_exact_inverse (k : Nat) (j : ℝ) (z : List ℂ) (hz : z.length = 2 ^ k) :
+    invE k j (fwdE k j z) = z.map ((2:ℂ) ^ k * ·) := invE_fwdE k j z hz
+
+/-- convolution theorem: negacyclic product in `Z[X]/(X^n+1)` ↦ slot-wise product -/
+theorem fft64_exact_convolution (k : Nat) (a b : Poly) (ha : a.length = 2 ^ (k + 1)) (hb : b.length = 2 ^ (k + 1)) :
+    fwdE k (1 / 4) (packC (2 ^ k) ((Hal.negMul a b).map cc)) =
+      List.zipWith (· * ·) (fwdE k (1 / 4) (packC (2 ^ k) (a.map cc))) (fwdE k (1 / 4) (packC (2 ^ k) (b.map cc))) :=
+  fwdE_mul k a b ha hb
+
+/-! ### the pipeline -/
+
+/-- **`fft64_pipeline_exact`**: `svp_prepare(p)`; `svp_apply_dft(x)`; `vec_znx_idft_apply` on FFT64Ref (model
+`Fft64.svpPipeline`, tied bit for bit) returns EXACTLY the negacyclic product `Hal.negMul p x`, for every `n = 2·2^K`,
+whenever the tables are `τ`-accurate and `(K, τ, Ma, Mb)` lie in the explicit magnitude domain `SvpDomain` -/
+theorem fft64_pipeline_exact (K : Nat) (omg iomg : Array Nat) (τ Ma Mb : ℝ) (p x : List Int)
+    (hacc : TableAccurate τ K omg iomg)
+    (hp : p.length = 2 ^ (K + 1)) (hx : x.length = 2 ^ (K + 1))
+    (hpM : ∀ c ∈ p, c.natAbs < 2 ^ 53 ∧ |(c:ℝ)| ≤ Ma) (hxM : ∀ c ∈ x, c.natAbs < 2 ^ 53 ∧ |(c:ℝ)| ≤ Mb)
+    (hdom : SvpDomain K τ Ma Mb) : svpPipeline K omg iomg p x = Hal.negMul p x :=
+  svp_pipeline_exact' K omg iomg τ Ma Mb p x hacc hp hx hpM hxM hdom
+
+/-- the domain in closed form: `n²·(9/16)·Ma·Mb·((G−1)(1+u) + u) + 2^-1075 < 1/2` with
+`G = (1+γi/2)^K·(1+γf/2)^(2K)·(1+3κ/2)` (`4^K = n²/4`) implies every side condition -/
+theorem fft64_domain_closed_form (K : Nat) (τ Ma Mb : ℝ) (hτ0 : 0 ≤ τ) (hτ1 : τ ≤ 1) (hK : K ≤ 1022) (hMa : 1 ≤ Ma) (hMb : 1 ≤ Mb)
+    (hmain : 4 ^ K * (9 / 4) * ((G K τ - 1) * (1 + u) + u) * (Ma * Mb) + η < 1 / 2) : SvpDomain K τ Ma Mb :=
+  svpDomain_of_main K τ Ma Mb hτ0 hτ1 hK hMa hMb hmain
+
+/-- relative a-priori error of the whole pipeline for `τ = 2^-51`: `(G−1)(1+u) + u ≤ (20K + 6)·2^-53`, `K ≤ 15` -/
+theorem fft64_growth_numeric (K : Nat) (hK : K ≤ 15) : (G K τ51 - 1) * (1 + u) + u ≤ (20 * K + 6) * u := growth_le K hK
+
+/-- **the domain in numbers for `n ≤ 2^16`**: `Ma·Mb ≤ 2^(domBits K)`, `domBits = 48, 44, 41, 38, 36, 34, 31, 29, 27, 25, 23,
+21, 18, 16, 14, 12` for `n = 2, 4, …, 65536` (`n·Ma·Mb ≤ 2^49, 2^46, 2^44, 2^42, 2^41, 2^40, 2^38, 2^37, 2^36, 2^35, 2^34, 2^33, 2^31,
+2^30, 2^29, 2^28`) -/
+theorem fft64_domain_numeric (K : Nat) (hK : K ≤ 15) (Ma Mb : ℝ) (hMa : 1 ≤ Ma) (hMb : 1 ≤ Mb)
+    (h : Ma * Mb ≤ (2:ℝ) ^ (domBits K)) : SvpDomain K τ51 Ma Mb := svpDomain_numeric K hK Ma Mb hMa hMb h
+
+/-- the two combined, integer hypotheses only -/
+theorem fft64_pipeline_exact_numeric (K : Nat) (hK : K ≤ 15) (omg iomg : Array Nat) (hacc : TableAccurate τ51 K omg iomg)
+    (p x : List Int) (hp : p.length = 2 ^ (K + 1)) (hx : x.length = 2 ^ (K + 1)) (A B : Nat) (hA : 1 ≤ A) (hB : 1 ≤ B)
+    (hpA : ∀ c ∈ p, c.natAbs ≤ A) (hxB : ∀ c ∈ x, c.natAbs ≤ B) (hAB : A * B ≤ 2 ^ domBits K) :
+    svpPipeline K omg iomg p x = Hal.negMul p x :=
+  svp_pipeline_exact_numeric K hK omg iomg hacc p x hp hx A B hA hB hpA hxB hAB
+
+/-- the hypothesis `TableAccurate` is satisfiable, and for the crate's `m = 2` tables it is *proved* (`√2/2` bounds) -/
+theorem fft64_table_accurate_m2 : TableAccurate τ51 1 omg2 iomg2 := tableAccurate_m2
+
+/-- **`fft64_vmp_exact`**: `vmp_prepare(rows b_j)`; `vmp_apply_dft(a)` (one output column: `reim4_vec_mat*_product_ref`
+accumulates `acc += a_j·b_j` row by row from `+0`); `vec_znx_idft_apply` returns EXACTLY the sum of the negacyclic
+products, inside the explicit domain `VmpDomain K rows τ Ma Mb` (accumulator error `accR` = one product error and two
+more roundings per row; `fft64_vmp_acc_growth` bounds it by `R·(1+u)^R·(EP + u·R·AP)`) -/
+theorem fft64_vmp_exact (K : Nat) (hK : 2 ≤ K) (omg iomg : Array Nat) (τ Ma Mb : ℝ) (rows : List (Poly × Poly))
+    (hacc : TableAccurate τ K omg iomg)
+    (hlen : ∀ r ∈ rows, r.1.length = 2 ^ (K + 1) ∧ r.2.length = 2 ^ (K + 1))
+    (hM : ∀ r ∈ rows, (∀ c ∈ r.1, c.natAbs < 2 ^ 53 ∧ |(c:ℝ)| ≤ Ma) ∧ (∀ c ∈ r.2, c.natAbs < 2 ^ 53 ∧ |(c:ℝ)| ≤ Mb))
+    (hdom : VmpDomain K rows.length τ Ma Mb) :
+    vmpApply K omg iomg rows = .ok (Hal.sumPolys (2 ^ (K + 1)) (rows.map (fun r => Hal.negMul r.1 r.2))) := by
+  have h8 : ¬ (2 * 2 ^ K < 8) := by
+    have : 2 ^ 2 ≤ 2 ^ K := Nat.pow_le_pow_right (by norm_num) hK
+    omega
+  unfold vmpApply
+  rw [if_neg h8, vmp_pipeline_exact K omg iomg τ Ma Mb rows hacc hlen hM hdom]
+
+/-- the entry assertion of `vmp_prepare_core` (`n >= 8`) is an outcome of the model, not a default -/
+theorem fft64_vmp_small_n_panics (K : Nat) (hK : K < 2) (omg iomg : Array Nat) (rows : List (Poly × Poly)) :
+    vmpApply K omg iomg rows = .panic "assert" := by
+  have : 2 * 2 ^ K < 8 := by interval_cases K <;> norm_num
+  unfold vmpApply; rw [if_pos this]
+
+theorem fft64_vmp_acc_growth (ep ap : ℝ) (hep : 0 ≤ ep) (hap : 0 ≤ ap) (R r : Nat) (hr : r ≤ R) :
+    (accIter ep ap r (0, 0)).1 ≤ r * (1 + u) ^ r * (ep + u * R * ap) ∧ (accIter ep ap r (0, 0)).2 = r * ap :=
+  accIter_fst_le ep ap hep hap R r hr
+
+/-- the vmp domain is decidable by evaluation and inhabited: `n = 8`, 3 rows, operands below `2^12` -/
+theorem fft64_vmp_domain_example : VmpDomain 2 3 τ51 4096 4096 := vmpDomain_example
+
+/-- **end to end, scalar-vector product**: what the FFT64 reference back end computes for limb `l` of `svp_apply_dft`
+is exactly what the HAL specification model says (`Hal.svpApplyCol`: `negMul p limb`) — the exact-integer model the
+`hal` tie compares all four back ends with -/
+theorem fft64_svp_matches_spec (K : Nat) (omg iomg : Array Nat) (τ Ma Mb : ℝ) (hacc : TableAccurate τ K omg iomg)
+    (rs : Nat) (p : Poly) (b : Col) (l : Nat) (hl : l < rs) (hlb : l < b.length) (d : Poly)
+    (hp : p.length = 2 ^ (K + 1)) (hb : (limbOr0 (2 ^ (K + 1)) b l).length = 2 ^ (K + 1))
+    (hpM : ∀ c ∈ p, c.natAbs < 2 ^ 53 ∧ |(c:ℝ)| ≤ Ma) (hxM : ∀ c ∈ limbOr0 (2 ^ (K + 1)) b l, c.natAbs < 2 ^ 53 ∧ |(c:ℝ)| ≤ Mb)
+    (hdom : SvpDomain K τ Ma Mb) :
+    Fft64.svpPipeline K omg iomg p (limbOr0 (2 ^ (K + 1)) b l) = (svpApplyCol (2 ^ (K + 1)) rs p b).getD l d := by
+  rw [svp_limbwise (2 ^ (K + 1)) rs p b l hl d, if_pos hlb]
+  exact fft64_pipeline_exact K omg iomg τ Ma Mb p _ hacc hp hb hpM hxM hdom
+
+/-- **end to end, vector-matrix product**: one flat output entry of `Hal.vmpFlat` (`limb_offset = 0`) is exactly what
+the FFT64 vmp pipeline computes from the rows `(input limb, matrix entry)` -/
+theorem fft64_vmp_matches_spec (K : Nat) (hK : 2 ≤ K) (omg iomg : Array Nat) (τ Ma Mb : ℝ) (hacc : TableAccurate τ K omg iomg)
+    (a : List Poly) (m : PMat) (rl r : Nat) (hr : r < rl) (hc : r < m.colsOut * m.size) (d : Poly)
+    (hlen : ∀ i, i < min (m.colsIn * m.rows) a.length →
+      (a.getD i (zeroP (2 ^ (K + 1)))).length = 2 ^ (K + 1) ∧ (m.entry i r).length = 2 ^ (K + 1))
+    (hM : ∀ i, i < min (m.colsIn * m.rows) a.length →
+      (∀ c ∈ a.getD i (zeroP (2 ^ (K + 1))), c.natAbs < 2 ^ 53 ∧ |(c:ℝ)| ≤ Ma) ∧ (∀ c ∈ m.entry i r, c.natAbs < 2 ^ 53 ∧ |(c:ℝ)| ≤ Mb))
+    (hdom : VmpDomain K (min (m.colsIn * m.rows) a.length) τ Ma Mb) :
+    vmpApply K omg iomg ((List.range (min (m.colsIn * m.rows) a.length)).map (fun i => (a.getD i (zeroP (2 ^ (K + 1))), m.entry i r))) =
+      .ok ((vmpFlat (2 ^ (K + 1)) a m 0 rl).getD r d) := by
+  have e : (vmpFlat (2 ^ (K + 1)) a m 0 rl).getD r d =
+      sumPolys (2 ^ (K + 1)) (((List.range (min (m.colsIn * m.rows) a.length)).map (fun i => (a.getD i (zeroP (2 ^ (K + 1))), m.entry i r))).map
+        (fun r => negMul r.1 r.2)) := by
+    rw [vmp_entry (2 ^ (K + 1)) a m 0 rl r hr d]
+    have h1 : 0 * m.colsOut < min (m.colsOut * m.size) (rl + 0 * m.colsOut) ∧
+        r < min (m.colsOut * m.size) (rl + 0 * m.colsOut) - 0 * m.colsOut := by
+      simp only [Nat.zero_mul, Nat.add_zero, Nat.sub_zero]; omega
+    rw [if_pos h1, List.map_map]
+    congr 1
+    apply List.map_congr_left
+    intro i _
+    simp only [Function.comp, Nat.zero_mul, Nat.add_zero]
+  rw [e]
+  apply fft64_vmp_exact K hK omg iomg τ Ma Mb _ hacc
+  · intro r' hr'
+    simp only [List.mem_map, List.mem_range] at hr'
+    obtain ⟨i, hi, rfl⟩ := hr'
+    exact hlen i hi
+  · intro r' hr'
+    simp only [List.mem_map, List.mem_range] at hr'
+    obtain ⟨i, hi, rfl⟩ := hr'
+    exact hM i hi
+  · simpa using hdom
+
+/- FULL STATEMENT (not proved): closed form / numeric table of `VmpDomain` for every `rows` and `n ≤ 2^16` in the style of
+   `fft64_domain_numeric` (the predicate itself is explicit and evaluated per instance, e.g. `fft64_vmp_domain_example`);
+   the ℓ2 (Parseval) refinement of the a-priori bound, which would
+   replace one factor `n` by `√n`; the convolution (`cnv_*`) path; the AVX2/FMA kernels of FFT64Avx. -/
+
+/-! non-vacuity: `n = 4` with the crate's real tables — no hypothesis left unchecked; and the model evaluated by the kernel -/
+example : svpPipeline 1 omg2 iomg2 [1000000, -2000000, 3000000, 4194303] [4194303, -1, 7, -4000000] =
+    Hal.negMul [1000000, -2000000, 3000000, 4194303] [4194303, -1, 7, -4000000] :=
+  fft64_pipeline_exact_numeric 1 (by norm_num) omg2 iomg2 fft64_table_accurate_m2 _ _ rfl rfl (2 ^ 22) (2 ^ 22) (by norm_num) (by norm_num)
+    (by decide) (by decide) (by decide)
+example : svpPipeline 1 omg2 iomg2 [1000000, -2000000, 3000000, 4194303] [4194303, -1, 7, -4000000] =
+    [-3805713805697, 3611363639879, 29360130000000, 13592160655809] := by decide +kernel
+/-- the vmp model on the crate's real `m = 4` tables (dumped by `pvh fft64 tab k=2`), 3 rows, evaluated by the kernel:
+equal to the exact sum of products, as `fft64_vmp_exact` predicts inside `fft64_vmp_domain_example` -/
+example :
+    vmpPipeline 2 #[4604544271217802189, 4604544271217802188, 4606496786581982534, 4600565431771507043, 0, 0, 0, 0]
+      #[4606496786581982534, 13823937468626282851, 4604544271217802189, 13827916308072577996, 0, 0, 0, 0]
+      [([4095, -4095, 1, 0, 7, -9, 1000, 4095], [1, 2, 3, 4, 5, 6, 7, -4095]),
+       ([-5, 4095, 0, 0, 0, 0, 0, 1], [4095, 4095, 4095, 4095, 4095, 4095, 4095, 4095]),
+       ([1, 1, 1, 1, 1, 1, 1, 1], [-4095, 4095, -4095, 4095, -4095, 4095, -4095, 4095])] =
+    Hal.sumPolys 8 [Hal.negMul [4095, -4095, 1, 0, 7, -9, 1000, 4095] [1, 2, 3, 4, 5, 6, 7, -4095],
+      Hal.negMul [-5, 4095, 0, 0, 0, 0, 0, 1] [4095, 4095, 4095, 4095, 4095, 4095, 4095, 4095],
+      Hal.negMul [1, 1, 1, 1, 1, 1, 1, 1] [-4095, 4095, -4095, 4095, -4095, 4095, -4095, 4095]] := by decide +kernel
+example : vmpApply 1 #[] #[] [([1, 2, 3, 4], [1, 2, 3, 4])] = .panic "assert" := fft64_vmp_small_n_panics 1 (by norm_num) _ _ _
+example : SvpDomain 9 τ51 (2 ^ 12) (2 ^ 13) := fft64_domain_numeric 9 (by norm_num) _ _ (by norm_num) (by norm_num) (by unfold domBits; norm_num)
+/-- the exact network on a concrete vector: `m = 1` is the identity, and `invE ∘ fwdE = 2^k` is not vacuous -/
+example : invE 1 (1 / 4) (fwdE 1 (1 / 4) [1, I]) = [2, 2 * I] := by
+  rw [fft64_exact_inverse 1 (1 / 4) [1, I] rfl]; simp
+/-- the butterfly lemma on concrete doubles: `a = 3 + 4i`, `b = 1 − 2i`, exact twiddle `1` (table entry `(1.0, +0.0)`) -/
+example : ‖cval (bflyFwd ⟨0x3FF0000000000000, 0, false⟩ (0x4008000000000000, 0x4010000000000000) (0x3FF0000000000000, 0xC000000000000000)).1
+    - (cval (0x4008000000000000, 0x4010000000000000) + 1 * cval (0x3FF0000000000000, 0xC000000000000000))‖ ≤ γf 0 * 8 := by
+  have f1 : Fin64 0x3FF0000000000000 := ⟨⟨false, 2 ^ 52, -52⟩, by decide +kernel⟩
+  have f0 : Fin64 0 := ⟨⟨false, 0, -1074⟩, by decide +kernel⟩
+  have f3 : Fin64 0x4008000000000000 := ⟨⟨false, 3 * 2 ^ 51, -51⟩, by decide +kernel⟩
+  have f4 : Fin64 0x4010000000000000 := ⟨⟨false, 2 ^ 52, -50⟩, by decide +kernel⟩
+  have fm2 : Fin64 0xC000000000000000 := ⟨⟨true, 2 ^ 52, -51⟩, by decide +kernel⟩
+  have v : ∀ (b : Nat) (d : Dy), decode b = some d → val b = d.val := fun _ _ h => val_of_decode h
+  have v1 : val 0x3FF0000000000000 = 1 := by
+    rw [v _ ⟨false, 2 ^ 52, -52⟩ (by decide +kernel)]; unfold Dy.val; simp only [Bool.false_eq_true, if_false, one_mul]; rw [zpow_neg]; norm_num
+  have v0 : val 0 = 0 := by rw [v _ ⟨false, 0, -1074⟩ (by decide +kernel)]; simp [Dy.val]
+  have v3 : val 0x4008000000000000 = 3 := by
+    rw [v _ ⟨false, 3 * 2 ^ 51, -51⟩ (by decide +kernel)]; unfold Dy.val; simp only [Bool.false_eq_true, if_false, one_mul]; rw [zpow_neg]; norm_num
+  have v4 : val 0x4010000000000000 = 4 := by
+    rw [v _ ⟨false, 2 ^ 52, -50⟩ (by decide +kernel)]; unfold Dy.val; simp only [Bool.false_eq_true, if_false, one_mul]; rw [zpow_neg]; norm_num
+  have vm2 : val 0xC000000000000000 = -2 := by
+    rw [v _ ⟨true, 2 ^ 52, -51⟩ (by decide +kernel)]; unfold Dy.val; simp only [if_true]; rw [zpow_neg]; norm_num
+  have hn : ∀ x y : ℝ, |x| ≤ 4 → |y| ≤ 4 → ‖(⟨x, y⟩ : ℂ)‖ ≤ 8 := by
+    intro x y hx hy; have := norm_le_of_comp_abs ⟨x, y⟩ 4 (by norm_num) hx hy; linarith
+  refine (fft64_butterfly_error ⟨0x3FF0000000000000, 0, false⟩ _ _ 1 0 8 ⟨f1, f0⟩ ⟨f3, f4⟩ ⟨f1, fm2⟩ (by simp) ?_ (by norm_num) ?_ ?_
+    (by norm_num) ?_).2.2.1
+  · have : twC ⟨0x3FF0000000000000, 0, false⟩ = 1 := by
+      apply Complex.ext <;> simp [twC, cval, v1, v0]
+    rw [this]; simp
+  · exact hn _ _ (by rw [v3]; norm_num) (by rw [v4]; norm_num)
+  · exact hn _ _ (by rw [v1]; norm_num) (by rw [vm2]; norm_num)
+  · calc (8:ℝ) = 2 ^ (3:Int) := by norm_num
+      _ ≤ (2:ℝ) ^ (999:Int) := two_pow_le _ _ (by norm_num)
 
 end C07
